@@ -44,6 +44,24 @@ def attr_specs_check(violations):
             if sorted(f[0] for f in w.flows) != [1, 2, 3, 4] or any(f[2] != want for f in w.flows):
                 violations.append(dict(kind='bulk', helper='connect_randomly', attrs=[list(x) if isinstance(x, tuple) else x for x in spec], evenly=evenly,
                                        observed=[f'connections made: {[(f[0], f[1], sorted(f[2])) for f in w.flows]}; every source must be connected with {sorted(want)}']))
+    # the entity sets may be any iterable, also one that can be walked only once (generator, iterator, filter object)
+    kinds = {'tuple': lambda l: tuple(l), 'generator': lambda l: (x for x in l), 'iterator': lambda l: iter(l), 'filter': lambda l: filter(lambda x: True, l),
+             'dict keys': lambda l: dict.fromkeys(l).keys()}
+    for kind, mk in kinds.items():
+        w = FakeWorld(); util.connect_many_to_one(w, mk([1, 2, 3]), 9, 'a'); n += 1
+        if [f[:2] for f in w.flows] != [(1, 9), (2, 9), (3, 9)]:
+            violations.append(dict(kind='bulk', helper='connect_many_to_one', attrs=['a'], src_set=kind,
+                                   observed=[f'src_set given as a {kind}: connections made {[(f[0], f[1]) for f in w.flows]}; every one of the sources 1, 2, 3 must be connected to 9']))
+        for evenly in (True, False):
+            w = FakeWorld(); rec = Recorder(5); old = util.random; util.random = rec
+            try:
+                # (src_set is declared a sequence - it is sliced; dest_set is copied into a list first, so any iterable will do)
+                res = util.connect_randomly(w, [1, 2, 3, 4] if kind != 'tuple' else (1, 2, 3, 4), mk([7, 8]), 'a', evenly=evenly); n += 1
+            finally:
+                util.random = old
+            if sorted(f[0] for f in w.flows) != [1, 2, 3, 4] or set(res) != {f[1] for f in w.flows} or not {f[1] for f in w.flows} <= {7, 8}:
+                violations.append(dict(kind='bulk', helper='connect_randomly', attrs=['a'], src_set=kind, evenly=evenly,
+                                       observed=[f'entity sets given as {kind}s: connections made {[(f[0], f[1]) for f in w.flows]}, returned {sorted(res)}']))
     return n
 
 
